@@ -221,6 +221,20 @@ def gen_sigs(ctx):
     rng = ctx.rng
     out = [('corpus:' + n, s) for n, s in corpus_sigs()]
     cdir = os.path.join(VERIF, 'corpus', 'C06')
+    have = {s.lean() for _, s in out}
+    if os.path.isdir(cdir):
+        for fn in sorted(os.listdir(cdir)):
+            for line in open(os.path.join(cdir, fn)):
+                if line.startswith('#') or '|' not in line:
+                    continue
+                w = [x.strip() for x in line.split('|')]
+                if w[0].startswith('known:') or w[1] in have:
+                    continue        # witnesses of known findings are replayed separately
+                try:
+                    out.append(('corpus:' + w[0], sig_from_lean(w[1], w[2] if len(w) > 2 else '')))
+                    have.add(w[1])
+                except Exception as ex:
+                    ctx.notes.append(f'corpus line not understood: {w[0]}: {ex}')
     # boundary battery: positions relative to register exhaustion x probed class
     cells = [(g, f, k) for g in range(0, 8) for f in (0, 3, 6, 7, 8, 9) for k in PROBE_ARGS]
     if ctx.thorough:
@@ -566,6 +580,107 @@ def run_dump(ctx, corr, cases, infos):
     corr.extra['spec_placements_confirmed_by_gcc_and_clang'] = spec_checked
 
 
+# ------------------------------------------------------------------ return-value dump (spec <-> gcc/clang, chibicc callee vs spec)
+
+def ret_image(loc, regs):
+    """bytes of the returned object as the location list says: 8 bytes per rax/rdx/xmm piece; st0 covers a whole 16-byte pair"""
+    image = b''
+    for r in loc:
+        if r == 'st0':
+            image += regs['st0']
+        else:
+            image += regs[r].to_bytes(8, 'little')
+    return image
+
+
+def run_retdump(ctx, corr, cases, infos):
+    base = os.path.join(ctx.scratch, 'retdump')
+    sel = [(c, i) for c, i in zip(cases, infos) if c[1].ret is not None]
+    # one entry per distinct return type
+    seen = set()
+    uniq = []
+    for c, i in sel:
+        key = c[1].ret.key()
+        if key not in seen:
+            seen.add(key)
+            uniq.append((Sig(c[1].ret, []), i))
+    confirmed = 0
+    for who in ('gcc', 'clang', 'chibicc'):
+        d = os.path.join(base, who)
+        os.makedirs(d, exist_ok=True)
+        sigs = [s for s, _ in uniq]
+        flags = ['st0' in i['ret'][2] for _, i in uniq]
+        fs = G.emit_ret_files(sigs, flags)
+        for n, t in fs.items():
+            open(os.path.join(d, n), 'w').write(t)
+        sh(GCC + ['-c', 'retdump.s', '-o', 'retdump.o'], cwd=d)
+        sh(GCC + ['-O1', '-c', 'ret_main.c', '-o', 'ret_main.o'], cwd=d)
+        rc, e = compile_obj(ctx, who, 'ret_callee.c', f'ret_callee_{who}.o', d)
+        if rc != 0:
+            if who == 'chibicc':
+                corr.violations.append({'what': 'chibicc rejects the return-value probe', 'input': 'ret_callee.c', 'expected': 'compiles', 'got': e[-300:]})
+            continue
+        r, err = link_run(ctx, ['ret_main.o', 'retdump.o', f'ret_callee_{who}.o'], f'ret_{who}', d)
+        if err:
+            raise RuntimeError(err)
+        rc, out = r
+        lines = {}
+        for l in out.split('\n'):
+            if l.startswith('R '):
+                w = l.split(' ')
+                lines[int(w[1])] = w
+        for k, (s, info) in enumerate(uniq):
+            corr.evaluations += 1
+            corr.count(f'retdump-{who}')
+            w = lines.get(k)
+            region = info['regions']
+            if w is None:
+                if who == 'chibicc':
+                    v = {'what': f'return-value probe crashed (exit status {rc})', 'input': s.short(), 'lean': s.lean(), 'expected': 'runs', 'got': 'crash', 'mode': 'retdump'}
+                    if region:
+                        v['known_id'] = region[0]
+                    corr.violations.append(v)
+                continue
+            regs = {'rax': int(w[2], 16), 'rdx': int(w[3], 16), 'xmm0': int(w[4], 16), 'xmm1': int(w[5], 16),
+                    'st0': int(w[6], 16).to_bytes(8, 'little') + int(w[7], 16).to_bytes(2, 'little') + bytes(6)}
+            rax_is_buf = w[8] == '1'
+            buf = bytes.fromhex(w[9])
+            _, rets, _ = G.plan(s, k)
+            offs = {path: off for path, _, off in G.leaves(s.ret)}
+            def check(loctext):
+                if loctext == 'void':
+                    return None
+                if loctext.startswith('mem'):
+                    if loctext == 'mem:rax' and not rax_is_buf:
+                        return 'rax is not the hidden pointer on return'
+                    image = buf
+                else:
+                    image = ret_image(loctext[2:].split(','), regs)
+                for path, lt, words, rid in rets:
+                    want = leaf_bytes(lt, words)
+                    got = image[offs[path]: offs[path] + len(want)]
+                    if got != want:
+                        return f'leaf {path}: expected {want.hex()} at {loctext}, found {got.hex()}'
+                return None
+            bad_spec = check(info['ret'][2])
+            if who != 'chibicc':
+                if bad_spec:
+                    corr.disagreements.append({'kind': f'spec-ret-vs-{who}', 'sig': s.short(), 'lean': s.lean(), 'what': bad_spec, 'spec': info['ret'][2]})
+                else:
+                    confirmed += 1
+                continue
+            bad_model = check(info['ret'][1]) if not info['ret'][1].startswith('abort') else None
+            if bad_model and not (bad_spec is None and 'st0' in info['ret'][2] and 'st0' not in info['ret'][1]):
+                corr.disagreements.append({'kind': 'retdump-vs-model', 'sig': s.short(), 'lean': s.lean(), 'what': bad_model, 'model': info['ret'][1]})
+            if bad_spec:
+                v = {'what': f'chibicc-compiled callee does not return the value as the psABI says: {bad_spec}', 'input': s.short(), 'lean': s.lean(),
+                     'expected': f'psABI return location {info["ret"][2]}', 'got': f'chibicc return location {info["ret"][1]}', 'mode': 'retdump'}
+                if region:
+                    v['known_id'] = region[0]
+                corr.violations.append(v)
+    corr.extra['spec_return_locations_confirmed_by_gcc_and_clang'] = confirmed
+
+
 # ------------------------------------------------------------------ link-time interoperation
 
 DUMP_STACK = 1024
@@ -857,6 +972,73 @@ def run_va_lists(ctx, corr):
                                 'expected': a[j] if j < len(a) else '<end>', 'got': b[j] if j < len(b) else '<end>', 'line': j, 'mode': 'va_list'})
 
 
+CONV_CALLEE = r'''
+#include <stdio.h>
+#include <stdarg.h>
+void cl(long a, unsigned long b, double c, float d, char e, _Bool f, short g, unsigned char h, long double i, int j) {
+  printf("cl %ld %lu %g %g %d %d %d %d %Lg %d\n", a, b, c, (double)d, e, f, g, h, i, j);
+}
+void cv(int n, ...) {
+  va_list ap; va_start(ap, n);
+  printf("cv");
+  for (int k = 0; k < n; k++) {
+    if (k == 3 || k == 6) printf(" %g", va_arg(ap, double));
+    else if (k == 5) printf(" %u", va_arg(ap, unsigned));
+    else if (k == 7) printf(" %ld", va_arg(ap, long));
+    else printf(" %d", va_arg(ap, int));
+  }
+  printf("\n"); va_end(ap);
+}
+int old(int a, double b, int c) { printf("old %d %g %d\n", a, b, c); return a + c; }
+'''
+
+CONV_CALLER = r'''
+void cl(long a, unsigned long b, double c, float d, char e, _Bool f, short g, unsigned char h, long double i, int j);
+void cv(int n, ...);
+int old();
+int main(void) {
+  char c = -3; short s = -300; unsigned char uc = 200; float f = 1.5f; int i = -7; unsigned u = 4000000000u;
+  long l = 0x123456789abcL; _Bool b = 1; double d = 2.25; long double ld = 3.5L; unsigned long ul = 18000000000000000000UL;
+  cl(i, u, f, d, l, i, l, i, d, ul);          /* int->long, unsigned->unsigned long, float->double, double->float, long->char,
+                                                 int->_Bool, long->short, int->unsigned char, double->long double, unsigned long->int */
+  cl(c, s, i, u, 65, 256, 65536 + 5, 511, f, d);
+  cv(8, c, s, uc, f, b, u, d, l);             /* default argument promotions */
+  old(c, f, uc);                              /* call without a prototype */
+  cl(ld, ld, ld, ld, ld, 0.5, ld, ld, ld, ld);  /* long double -> everything; 0.5 -> _Bool is 1 */
+  return 0;
+}
+'''
+
+
+def run_argconv(ctx, corr):
+    """C11 6.5.2.2p6-7: arguments are converted to the parameter types; default argument promotions for `...` and for calls
+    without a prototype.  The chibicc-compiled caller must print what the gcc- and clang-compiled callers print."""
+    d = os.path.join(ctx.scratch, 'conv')
+    os.makedirs(d, exist_ok=True)
+    open(os.path.join(d, 'conv_callee.c'), 'w').write(CONV_CALLEE)
+    open(os.path.join(d, 'conv_caller.c'), 'w').write(CONV_CALLER)
+    sh(GCC + ['-O1', '-c', 'conv_callee.c', '-o', 'conv_callee.o'], cwd=d)
+    outs = {}
+    for who in ('gcc', 'clang', 'chibicc'):
+        rc, e = compile_obj(ctx, who, 'conv_caller.c', f'conv_caller_{who}.o', d)
+        if rc != 0:
+            outs[who] = 'compile failed: ' + e[-200:]
+            continue
+        r, err = link_run(ctx, [f'conv_caller_{who}.o', 'conv_callee.o'], f'conv_{who}', d)
+        outs[who] = err or (r[1] if r[0] == 0 else f'exit status {r[0]}\n' + r[1])
+    corr.evaluations += 1
+    corr.count('argument-conversions')
+    if outs['gcc'] != outs['clang']:
+        corr.count('skipped_oracles_disagree')
+        return
+    corr.nontrivial.add('argument-conversions')
+    if outs['chibicc'] != outs['gcc']:
+        a, b = outs['gcc'].split('\n'), outs['chibicc'].split('\n')
+        j = next((j for j in range(min(len(a), len(b))) if a[j] != b[j]), min(len(a), len(b)))
+        corr.violations.append({'what': 'arguments are not converted to the parameter types / not promoted', 'input': 'checklib/C06.py CONV_CALLER compiled by chibicc',
+                                'expected': a[j] if j < len(a) else '<end>', 'got': b[j] if j < len(b) else '<end>', 'line': j, 'mode': 'argconv'})
+
+
 # ------------------------------------------------------------------ main entry points
 
 def setup(ctx):
@@ -891,9 +1073,11 @@ def correspond(ctx, corr):
                  'assign': infos[len(corr_first(cases))] if len(cases) > 20 else infos[0]})
     run_tie(ctx, corr, cases)
     run_dump(ctx, corr, cases, infos)
+    run_retdump(ctx, corr, cases, infos)
     run_interop(ctx, corr, cases, infos)
     run_probes(ctx, corr)
     run_va_lists(ctx, corr)
+    run_argconv(ctx, corr)
     # known findings: do the witnesses still fail?
     d = os.path.join(ctx.scratch, 'known')
     os.makedirs(d, exist_ok=True)
